@@ -14,6 +14,7 @@ import (
 type Obj struct {
 	id    int
 	what  string
+	name  string // local variable holding a collection under construction
 	typ   types.Type
 	bound *Place // where a locally built object ends up (X[i] = obj, r.F = obj, m[k] = obj)
 	loop  *Loop  // element / entry object of a loop
@@ -118,6 +119,9 @@ type W struct {
 	nullKind string
 	nullLast bool // the null pattern returned/continued: the array must be the last thing coded at its level
 	nullRet  bool
+	countLike map[types.Object]bool // variables used as a make size or a loop bound somewhere
+	lvalue   bool // evaluating an assignment target: known field values are not substituted
+	knownVer map[string]bool
 }
 
 type earlyChk struct {
@@ -258,8 +262,8 @@ func (w *W) eval(e ast.Expr) SVal {
 			cur = cur.child(idx, f.Name(), f.Type())
 			t = f.Type()
 		}
-		if v, ok := w.known[cur.key()]; ok {
-			return Conc{v: v, fromVer: true}
+		if v, ok := w.known[cur.key()]; ok && !w.lvalue {
+			return Conc{v: v, fromVer: w.knownVer[cur.key()]}
 		}
 		return cur
 	case *ast.IndexExpr:
@@ -584,4 +588,11 @@ func sizeOfElem(g *Gen, t types.Type) int64 {
 		s = 1
 	}
 	return s
+}
+
+func (w *W) evalL(e ast.Expr) SVal {
+	save := w.lvalue
+	w.lvalue = true
+	defer func() { w.lvalue = save }()
+	return w.eval(e)
 }
